@@ -8,6 +8,8 @@ var OnsKinds = []string{"DOM_CREATE", "DOM_CREATE", "DOM_CREATE_SUB", "DOM_UPDAT
 var DelegKinds = []string{"DELEGATE", "DELEGATE", "UNDELEGATE", "UNDELEGATE", "DELEG_WITHDRAW", "DELEG_WITHDRAW", "DELEG_REINVEST", "SEND", "SENDPOOL"}
 var StakeKinds = []string{"STAKE", "STAKE", "UNSTAKE", "UNSTAKE", "UNSTAKE", "WITHDRAW", "WITHDRAW", "SEND"}
 
+var RewardKinds = []string{"REWARD_WITHDRAW", "REWARD_WITHDRAW", "REWARD_WITHDRAW", "STAKE", "UNSTAKE", "SEND", "DELEGATE", "WITHDRAW"}
+
 var reqNames = []string{"r1", "r2", "r3", "r4"}
 var AllegKinds = []string{"ALLEGATION", "ALLEGATION", "ALLEGATION_VOTE", "ALLEGATION_VOTE", "ALLEGATION_VOTE", "ALLEGATION_VOTE", "RELEASE", "STAKE", "UNSTAKE", "WITHDRAW", "SEND"}
 var propNames = []string{"p1", "p2", "p3"}
@@ -140,6 +142,23 @@ func familyExt(family, id string, g *Gen, blocks, maxTx int) *Scenario {
 		return g.Mixed(id, blocks, maxTx, OnsKinds)
 	case "olvm":
 		return g.OlvmStory(id, blocks)
+	case "rewards":
+		// long histories over the reward schedule: both reward years close (a block is about a million seconds, a year
+		// about thirty blocks), powers change, signers are absent, matured rewards are withdrawn by their owners and by others
+		g.Hostile = 0.15
+		if blocks < 40 {
+			blocks = 40
+		}
+		sc := g.Mixed(id, blocks, maxTx, RewardKinds)
+		for i := range sc.Blocks {
+			if g.R.Intn(4) == 0 {
+				sc.Blocks[i].Absent = []string{g.pick(g.vals)}
+			}
+			if g.R.Intn(12) == 0 {
+				sc.Blocks[i].DT = int64(g.rng(500000, 1100000)) // near the close window
+			}
+		}
+		return sc
 	case "deleg":
 		g.Hostile = 0.2
 		return g.Mixed(id, blocks, maxTx+2, DelegKinds)
@@ -200,6 +219,8 @@ func familyKindsExt(family string) []string {
 		return GovKinds
 	case "ons", "onsmix":
 		return OnsKinds
+	case "rewards":
+		return RewardKinds
 	case "olvm":
 		return []string{"OLVM", "SEND"}
 	case "onsgov":
